@@ -119,9 +119,18 @@ def check(case):
     else:
         A = np.array(case["A"], float)[: m * m].reshape(m, m)
         Sigma = A @ A.T + np.diag(np.array(case["diag"], float)[:m])
-    pts = np.array([[0.5]])
+    # the regions of `order` (a permutation of a few designs with distinct predictions) are rebuilt by one update call;
+    # each design's region must be the one of its own prediction, whatever the order of the index list
+    order = [int(i) for i in case.get("order", [0])]
+    n = len(order)
+    pts = np.array([[0.5 + 0.1 * i] for i in range(n)])
     ds = FixedPointsDesignSpace(pts, m, confidence_type="hyperellipsoid" if ell else "hyperrectangle")
-    stub = StubModel(pts, np.zeros((1, m)), Sigma[None])
+    mult = [1.0] * n if bandit else [float((1 + i) ** 2) for i in range(n)]
+    sd0 = float(np.sqrt(np.max(np.diag(Sigma))))
+    means = np.array([[7.0 * sd0 * i * (1 if j % 2 == 0 else -1) for j in range(m)] for i in range(n)])
+    stub = StubModel(pts, means, np.array([c * Sigma for c in mult]))
+    if n > 1:
+        labels.append("several-designs-sorted-indices" if order == sorted(order) else "several-designs-unsorted-indices")
     batch = case.get("batch", 1) if algo not in ("PaVeBa", "Auer") else 1
     if batch > 1:
         labels.append("batch>1")
@@ -139,21 +148,37 @@ def check(case):
         sc = np.asarray(scale, float)
         if not np.all(np.isfinite(sc)) or np.any(sc < 0):
             raise FloatingPointError(f"scale {scale} at t={t}")
-        ds.update(stub, scale if isinstance(scale, np.ndarray) or hasattr(scale, "ndim") else np.array(scale), [0])
-        reg = ds.confidence_regions[0]
-        if ell:
-            S, a = np.asarray(reg.sigma, float), float(np.asarray(reg.alpha))
-            # estimator law: N(truth, kappa * S) with kappa = sigma^2/t for the bandit mean (S = I), 1 for a GP posterior (S = Sigma)
-            kappa = (1.0 if algo == "Auer" else noise_var) / t if bandit else 1.0
-            if not np.allclose(S, Sigma):
-                raise FloatingPointError("region covariance differs from the model's")
-            return float(sstats.chi2.sf(a * a / kappa, m))
-        h = (np.asarray(reg.upper, float) - np.asarray(reg.lower, float)) / 2
-        if bandit:
-            sd = np.full(m, math.sqrt((1.0 if algo == "Auer" else noise_var) / t))
-        else:
-            sd = np.sqrt(np.diag(Sigma))
-        return float(np.sum(2 * sstats.norm.sf(h / sd)))
+        sarr = scale if isinstance(scale, np.ndarray) or hasattr(scale, "ndim") else np.array(scale)
+        if getattr(sarr, "ndim", 0) == 2 and len(sarr) == 1 and n > 1:  # one row per updated design
+            sarr = np.repeat(np.asarray(sarr), n, axis=0)
+        ds.update(stub, sarr, list(order))
+        worst = 0.0
+        for i in order:
+            reg = ds.confidence_regions[i]
+            Si = mult[i] * Sigma
+            if ell:
+                S, a = np.asarray(reg.sigma, float), float(np.asarray(reg.alpha))
+                # estimator law: N(truth, kappa * S) with kappa = sigma^2/t for the bandit mean (S = I), 1 for a GP posterior (S = Sigma)
+                kappa = (1.0 if algo == "Auer" else noise_var) / t if bandit else 1.0
+                if not np.allclose(S, Si):
+                    raise FloatingPointError(f"region covariance of design {i} differs from the model's (index list {order})")
+                d = np.asarray(reg.center, float) - means[i]
+                if np.any(d != 0):  # region centred elsewhere than at the design's own prediction
+                    nc = float(d @ np.linalg.solve(Si, d)) / kappa
+                    worst = max(worst, float(sstats.ncx2.sf(a * a / kappa, m, nc)))
+                else:
+                    worst = max(worst, float(sstats.chi2.sf(a * a / kappa, m)))
+                continue
+            lo, up = np.asarray(reg.lower, float), np.asarray(reg.upper, float)
+            h = (up - lo) / 2
+            d = (up + lo) / 2 - means[i]
+            d = np.where(np.abs(d) <= 1e-12 * (np.abs(means[i]) + h), 0.0, d)  # centre recovered from the corners: round-off
+            if bandit:
+                sd = np.full(m, math.sqrt((1.0 if algo == "Auer" else noise_var) / t))
+            else:
+                sd = np.sqrt(np.diag(Si))
+            worst = max(worst, float(np.sum(sstats.norm.sf((h + d) / sd) + sstats.norm.sf((h - d) / sd))))
+        return worst
 
     try:
         total = 0.0
@@ -211,6 +236,7 @@ def st_case(draw, algo=None):
     m = draw(st.integers(2, 6))
     return {"algo": algo, "delta": delta, "K": max(1, K), "m": m, "noise_var": draw(gen.st_logfloat(1e-3, 1e2)),
             "batch": draw(st.sampled_from([1, 1, 2, 8, 32, 64])),
+            "order": draw(st.one_of(st.just([0]), st.just([0]), st.just([0]), st.integers(2, 3).flatmap(lambda n: st.permutations(list(range(n)))))),
             "A": [draw(st.floats(-1, 1)) for _ in range(36)], "diag": [draw(gen.st_logfloat(1e-4, 1.0)) for _ in range(6)]}
 
 
